@@ -14,6 +14,7 @@ import (
 	"strconv"
 	"strings"
 
+	"verif/harness/eclib"
 	. "verif/harness/hlib"
 
 	"github.com/skycoin/skycoin/src/cipher/bip32"
@@ -437,6 +438,93 @@ func genDeser(r *Rng, emit func(string)) {
 	}
 }
 
+// ---- the generator's own BIP32 private derivation (stdlib HMAC + math/big + harness/eclib; never the code under test),
+// used to PRE-SELECT the children worth asking about: those whose key, or whose IL, starts with zero bytes.
+type refKey struct {
+	k  *big.Int
+	cc []byte
+}
+
+func refMaster(seed []byte) refKey {
+	m := hmac.New(sha512.New, []byte("Bitcoin seed"))
+	m.Write(seed) //nolint
+	I := m.Sum(nil)
+	return refKey{new(big.Int).SetBytes(I[:32]), I[32:]}
+}
+
+func (p refKey) pub() []byte { return eclib.Compress(eclib.Mul(p.k, eclib.G)) }
+
+// child returns the child key and IL; pub is the parent's compressed public key (needed for normal children only)
+func (p refKey) child(idx uint32, pub []byte) (refKey, []byte, bool) {
+	var data []byte
+	if idx >= 1<<31 {
+		data = append([]byte{0}, eclib.B32(p.k)...)
+	} else {
+		data = append([]byte{}, pub...)
+	}
+	data = append(data, byte(idx>>24), byte(idx>>16), byte(idx>>8), byte(idx))
+	m := hmac.New(sha512.New, p.cc)
+	m.Write(data) //nolint
+	I := m.Sum(nil)
+	il := new(big.Int).SetBytes(I[:32])
+	if il.Sign() == 0 || il.Cmp(eclib.N) >= 0 {
+		return refKey{}, nil, false
+	}
+	k := new(big.Int).Add(il, p.k)
+	k.Mod(k, eclib.N)
+	if k.Sign() == 0 {
+		return refKey{}, nil, false
+	}
+	return refKey{k, I[32:]}, I[:32], true
+}
+
+func refDerive(seed []byte, path []uint32) (refKey, bool) {
+	k := refMaster(seed)
+	for _, i := range path {
+		var ok bool
+		k, _, ok = k.child(i, k.pub())
+		if !ok {
+			return refKey{}, false
+		}
+	}
+	return k, true
+}
+
+// genLeadingZeroChildren sweeps `span` consecutive hardened and normal children of a parent by the reference
+// computation and emits derivation ops for exactly those whose key (or IL) has leading zero bytes.
+func genLeadingZeroChildren(seed []byte, path []uint32, span int, maxOps int, emit func(string)) {
+	parent, ok := refDerive(seed, path)
+	if !ok {
+		return
+	}
+	pub := parent.pub()
+	n := 0
+	for _, base := range []uint32{1 << 31, 0} {
+		found := 0
+		for i := 0; i < span && found < maxOps; i++ {
+			idx := base + uint32(i)
+			c, il, ok := parent.child(idx, pub)
+			if !ok {
+				continue
+			}
+			kb := eclib.B32(c.k)
+			if kb[0] != 0 && il[0] != 0 {
+				continue
+			}
+			found++
+			n++
+			full := idxStr(append(append([]uint32{}, path...), idx))
+			emit("derive " + Hex(seed) + " " + full)
+			if base == 0 {
+				emit("derivepub " + Hex(seed) + " " + idxStr(path) + " " + idxStr([]uint32{idx}))
+			}
+			if kb[0] == 0 && found == 1 { // one level below a shifted key everything differs too
+				emit("derive " + Hex(seed) + " " + full + ",0")
+			}
+		}
+	}
+}
+
 func gen(r *Rng, tier string, emit func(string)) {
 	thorough := tier == "thorough"
 	genDeser(r, emit)
@@ -545,6 +633,17 @@ func gen(r *Rng, tier string, emit func(string)) {
 		if i%3 == 0 {
 			emit("derivepub " + Hex(seed) + " " + idxStr(path) + " " + idxStr(append(pp, randIdx(r)|1<<31)))
 		}
+	}
+	// children whose private key / IL starts with a zero byte (about 1 in 256): fixed-width serialisation of the sum
+	{
+		span, per := 1500, 4
+		if thorough {
+			span, per = 20000, 40
+		}
+		vseed := PHex("000102030405060708090a0b0c0d0e0f")
+		genLeadingZeroChildren(vseed, nil, span, per, emit)
+		genLeadingZeroChildren(vseed, []uint32{44 + 1<<31, 1 << 31, 1 << 31, 0}, span, per, emit)
+		genLeadingZeroChildren(r.Bytes(32), []uint32{randIdx(r)}, span, per, emit)
 	}
 	// textual paths
 	for _, p := range []string{"m", "m/0", "m/0'", "m/44'/8000'/0'/0/0", "m/2147483647'", "m/2147483648", "m/4294967295", "m/4294967296", "m/-1", "m/0''", "m/'",
